@@ -223,6 +223,15 @@ func judge(out *pipe.Outcome, ix *pipe.Index) pipe.Verdict {
 		if e.Kind == rig.KCommit && e.Snap != nil {
 			st := e.Snap.Status[sc.Topo.Pipeline]
 			if status != "" && status != "Running" && st == "Running" {
+				if !sawRunning && status == "Recovering" {
+					// the run the force stop was aimed at was already failing: its cleanup
+					// had classified the failure as transient before the force stop was
+					// marked (the Recovering write lands after the call was issued, the
+					// status read at the call still said Running). From here on this is the
+					// same situation as a force stop issued while the pipeline reports
+					// Recovering.
+					duringRecovery = true
+				}
 				sawRunning = true
 			}
 			status, errTxt = st, e.Snap.StatusErr[sc.Topo.Pipeline]
